@@ -94,6 +94,17 @@ def prove_pairs(res, oid, pairs, hyp=None, sampler=None, pv=None, call=None, bac
     if failed:
         allok = False
         wit = None
+        if not expect_fail:
+            # complete the sampler: every input variable of the failed clauses gets a value
+            names = sorted(set(n.args[0] for n in dag.leaves([x for _, l, r in failed for x in (l, r)])))
+            base = sampler
+
+            def sampler(rng, _b=base, _n=names):
+                e = dict(_b(rng)) if _b is not None else {}
+                for nm in _n:
+                    if nm not in e:
+                        e[nm] = rng.uniform(-2, 2)
+                return e
         if sampler is not None and not expect_fail:
             pc = (lambda env: engine.path_holds(pv, env)) if pv is not None else None
             wit = engine.numeric_witness(failed, sampler, seed=seed, rtol=rtol, pathcond=pc)
